@@ -1,5 +1,587 @@
 /-
-C17 — property theorems (stub; nothing proved yet).
+C17 — homogenized mobilities respect the classical bounds and address phases by name.
+Property theorems about `KawinV.Homog` (hand model of HomogenizationParameters.py, tied to the
+source by the correspondence check tools/corr/C17.py).  α is any linearly ordered field; the two
+labyrinth statements that need real powers are instantiated on ℝ at the end.
 -/
+import KawinV.Model.Homog
+import Mathlib.Tactic.Ring
+import Mathlib.Tactic.Linarith
+import Mathlib.Tactic.FieldSimp
+import Mathlib.Tactic.NormNum
+import Mathlib.Tactic.Positivity
+import Mathlib.Algebra.Order.Field.Basic
+import Mathlib.Analysis.SpecialFunctions.Pow.Real
+
+set_option linter.unusedSectionVars false
+set_option linter.unusedVariables false
+set_option linter.unusedSimpArgs false
+set_option linter.unnecessarySimpa false
+
 namespace KawinV.Props.C17
+open KawinV.Homog
+
+variable {α : Type} [Field α] [LinearOrder α] [IsStrictOrderedRing α]
+
+/-! ### sums over the phase list -/
+
+/-- `Σ_{p ∈ l} g p` -/
+def S {β : Type} (g : β → α) (l : List β) : α := (l.map g).sum
+
+@[simp] theorem S_nil {β : Type} (g : β → α) : S g [] = 0 := by simp [S]
+@[simp] theorem S_cons {β : Type} (g : β → α) (p : β) (l : List β) : S g (p :: l) = g p + S g l := by
+  simp [S]
+
+/-- the code's left-to-right accumulation is the sum -/
+theorem sumMap_eq (g : α × α → α) (ps : List (α × α)) : sumMap g ps = S g ps := by
+  unfold sumMap
+  suffices h : ∀ a, ps.foldl (fun acc p => acc + g p) a = a + S g ps by simpa using h 0
+  induction ps with
+  | nil => intro a; simp
+  | cons p ps ih => intro a; simp [List.foldl_cons, ih, add_assoc]
+
+theorem S_add {β : Type} (g h : β → α) (l : List β) :
+    S (fun p => g p + h p) l = S g l + S h l := by
+  induction l with
+  | nil => simp
+  | cons p l ih => simp [ih]; ring
+
+theorem S_mul_left {β : Type} (c : α) (g : β → α) (l : List β) :
+    S (fun p => c * g p) l = c * S g l := by
+  induction l with
+  | nil => simp
+  | cons p l ih => simp [ih]; ring
+
+theorem S_mono {β : Type} (g h : β → α) (l : List β) (hgh : ∀ p ∈ l, g p ≤ h p) :
+    S g l ≤ S h l := by
+  induction l with
+  | nil => simp
+  | cons p l ih =>
+    simp only [S_cons]
+    have h1 := hgh p (by simp)
+    have h2 := ih (fun q hq => hgh q (by simp [hq]))
+    linarith
+
+theorem S_congr {β : Type} (g h : β → α) (l : List β) (hgh : ∀ p ∈ l, g p = h p) :
+    S g l = S h l :=
+  le_antisymm (S_mono g h l (fun p hp => (hgh p hp).le)) (S_mono h g l (fun p hp => (hgh p hp).ge))
+
+theorem S_nonneg {β : Type} (g : β → α) (l : List β) (hg : ∀ p ∈ l, 0 ≤ g p) : 0 ≤ S g l := by
+  have := S_mono (fun _ => (0:α)) g l hg
+  have h0 : S (fun _ : β => (0:α)) l = 0 := by
+    induction l with
+    | nil => simp
+    | cons p l ih => simp [ih (fun q hq => hg q (by simp [hq])) (S_mono _ _ _ (fun q hq => hg q (by simp [hq])))]
+  linarith
+
+theorem le_S_of_mem {β : Type} (g : β → α) (l : List β) (hg : ∀ p ∈ l, 0 ≤ g p) (p : β) (hp : p ∈ l) :
+    g p ≤ S g l := by
+  induction l with
+  | nil => simp at hp
+  | cons q l ih =>
+    simp only [S_cons]
+    have hl := S_nonneg g l (fun r hr => hg r (by simp [hr]))
+    rcases List.mem_cons.mp hp with rfl | h
+    · linarith
+    · have := ih (fun r hr => hg r (by simp [hr])) h
+      have := hg q (by simp)
+      linarith
+
+theorem S_perm {β : Type} (g : β → α) (l l' : List β) (h : l.Perm l') : S g l = S g l' := by
+  induction h with
+  | nil => rfl
+  | cons x _ ih => simp [ih]
+  | swap x y l => simp; ring
+  | trans _ _ ih1 ih2 => exact ih1.trans ih2
+
+/-- a weighted sum of positive terms with non-negative weights of positive total is positive -/
+theorem S_weighted_pos (ps : List (α × α)) (g : α × α → α)
+    (hf : ∀ p ∈ ps, 0 ≤ p.1) (hg : ∀ p ∈ ps, 0 < g p) (hs : 0 < S Prod.fst ps) :
+    0 < S (fun p => p.1 * g p) ps := by
+  induction ps with
+  | nil => simp at hs
+  | cons q l ih =>
+    simp only [S_cons] at hs ⊢
+    have hq := hf q (by simp)
+    have hgq := hg q (by simp)
+    have hrest : 0 ≤ S (fun p => p.1 * g p) l :=
+      S_nonneg _ l (fun r hr => mul_nonneg (hf r (by simp [hr])) (hg r (by simp [hr])).le)
+    rcases hq.lt_or_eq with h | h
+    · have := mul_pos h hgq; linarith
+    · have h' : 0 < S Prod.fst l := by rw [← h] at hs; simpa using hs
+      have := ih (fun r hr => hf r (by simp [hr])) (fun r hr => hg r (by simp [hr])) h'
+      rw [← h]; simpa using this
+
+/-- weights times an affine bound, summed -/
+theorem S_weighted_le (ps : List (α × α)) (φ ψ : α × α → α) (c0 c1 : α)
+    (hf : ∀ p ∈ ps, 0 ≤ p.1) (h : ∀ p ∈ ps, φ p ≤ c0 + c1 * ψ p) :
+    S (fun p => p.1 * φ p) ps ≤ c0 * S Prod.fst ps + c1 * S (fun p => p.1 * ψ p) ps := by
+  have h1 : S (fun p => p.1 * φ p) ps ≤ S (fun p => c0 * p.1 + c1 * (p.1 * ψ p)) ps := by
+    apply S_mono; intro p hp
+    have := mul_le_mul_of_nonneg_left (h p hp) (hf p hp)
+    have e : p.1 * (c0 + c1 * ψ p) = c0 * p.1 + c1 * (p.1 * ψ p) := by ring
+    linarith
+  rw [S_add, S_mul_left, S_mul_left] at h1
+  exact h1
+
+theorem S_weighted_ge (ps : List (α × α)) (φ ψ : α × α → α) (c0 c1 : α)
+    (hf : ∀ p ∈ ps, 0 ≤ p.1) (h : ∀ p ∈ ps, c0 + c1 * ψ p ≤ φ p) :
+    c0 * S Prod.fst ps + c1 * S (fun p => p.1 * ψ p) ps ≤ S (fun p => p.1 * φ p) ps := by
+  have h1 : S (fun p => c0 * p.1 + c1 * (p.1 * ψ p)) ps ≤ S (fun p => p.1 * φ p) ps := by
+    apply S_mono; intro p hp
+    have := mul_le_mul_of_nonneg_left (h p hp) (hf p hp)
+    have e : p.1 * (c0 + c1 * ψ p) = c0 * p.1 + c1 * (p.1 * ψ p) := by ring
+    linarith
+  rw [S_add, S_mul_left, S_mul_left] at h1
+  exact h1
+
+/-! ### np.amax / np.amin of a column -/
+
+theorem foldl_max_spec (xs : List α) (a : α) :
+    a ≤ xs.foldl (fun a b => if a < b then b else a) a ∧
+    (∀ x ∈ xs, x ≤ xs.foldl (fun a b => if a < b then b else a) a) ∧
+    (xs.foldl (fun a b => if a < b then b else a) a = a ∨
+      xs.foldl (fun a b => if a < b then b else a) a ∈ xs) := by
+  induction xs generalizing a with
+  | nil => simp
+  | cons y ys ih =>
+    simp only [List.foldl_cons, List.mem_cons]
+    obtain ⟨h1, h2, h3⟩ := ih (if a < y then y else a)
+    have ha : a ≤ (if a < y then y else a) := by split <;> [exact le_of_lt ‹_›; exact le_refl _]
+    have hy : y ≤ (if a < y then y else a) := by split <;> [exact le_refl _; exact not_lt.mp ‹_›]
+    refine ⟨ha.trans h1, ?_, ?_⟩
+    · intro x hx
+      rcases hx with rfl | hx
+      · exact hy.trans h1
+      · exact h2 x hx
+    · rcases h3 with h | h
+      · by_cases hay : a < y
+        · right; left; rw [h]; simp [hay]
+        · left; rw [h]; simp [hay]
+      · right; right; exact h
+
+theorem foldl_min_spec (xs : List α) (a : α) :
+    xs.foldl (fun a b => if b < a then b else a) a ≤ a ∧
+    (∀ x ∈ xs, xs.foldl (fun a b => if b < a then b else a) a ≤ x) ∧
+    (xs.foldl (fun a b => if b < a then b else a) a = a ∨
+      xs.foldl (fun a b => if b < a then b else a) a ∈ xs) := by
+  induction xs generalizing a with
+  | nil => simp
+  | cons y ys ih =>
+    simp only [List.foldl_cons, List.mem_cons]
+    obtain ⟨h1, h2, h3⟩ := ih (if y < a then y else a)
+    have ha : (if y < a then y else a) ≤ a := by split <;> [exact le_of_lt ‹_›; exact le_refl _]
+    have hy : (if y < a then y else a) ≤ y := by split <;> [exact le_refl _; exact not_lt.mp ‹_›]
+    refine ⟨h1.trans ha, ?_, ?_⟩
+    · intro x hx
+      rcases hx with rfl | hx
+      · exact h1.trans hy
+      · exact h2 x hx
+    · rcases h3 with h | h
+      · by_cases hay : y < a
+        · right; left; rw [h]; simp [hay]
+        · left; rw [h]; simp [hay]
+      · right; right; exact h
+
+theorem le_maxL (l : List α) (x : α) (hx : x ∈ l) : x ≤ maxL l := by
+  cases l with
+  | nil => simp at hx
+  | cons y ys =>
+    obtain ⟨h1, h2, _⟩ := foldl_max_spec ys y
+    rcases List.mem_cons.mp hx with rfl | h
+    · exact h1
+    · exact h2 x h
+
+theorem maxL_mem (l : List α) (hl : l ≠ []) : maxL l ∈ l := by
+  cases l with
+  | nil => exact absurd rfl hl
+  | cons y ys =>
+    obtain ⟨_, _, h3⟩ := foldl_max_spec ys y
+    show ys.foldl (fun a b => if a < b then b else a) y ∈ y :: ys
+    rcases h3 with h | h
+    · rw [h]; simp
+    · exact List.mem_cons_of_mem _ h
+
+theorem minL_le (l : List α) (x : α) (hx : x ∈ l) : minL l ≤ x := by
+  cases l with
+  | nil => simp at hx
+  | cons y ys =>
+    obtain ⟨h1, h2, _⟩ := foldl_min_spec ys y
+    rcases List.mem_cons.mp hx with rfl | h
+    · exact h1
+    · exact h2 x h
+
+theorem minL_mem (l : List α) (hl : l ≠ []) : minL l ∈ l := by
+  cases l with
+  | nil => exact absurd rfl hl
+  | cons y ys =>
+    obtain ⟨_, _, h3⟩ := foldl_min_spec ys y
+    show ys.foldl (fun a b => if b < a then b else a) y ∈ y :: ys
+    rcases h3 with h | h
+    · rw [h]; simp
+    · exact List.mem_cons_of_mem _ h
+
+theorem maxL_perm (l l' : List α) (h : l.Perm l') : maxL l = maxL l' := by
+  by_cases hl : l = []
+  · subst hl; rw [(List.nil_perm.mp h)]
+  · have hl' : l' ≠ [] := fun e => hl (by subst e; exact List.perm_nil.mp h)
+    exact le_antisymm (le_maxL l' _ (h.mem_iff.mp (maxL_mem l hl)))
+      (le_maxL l _ (h.mem_iff.mpr (maxL_mem l' hl')))
+
+theorem minL_perm (l l' : List α) (h : l.Perm l') : minL l = minL l' := by
+  by_cases hl : l = []
+  · subst hl; rw [(List.nil_perm.mp h)]
+  · have hl' : l' ≠ [] := fun e => hl (by subst e; exact List.perm_nil.mp h)
+    exact le_antisymm (minL_le l _ (h.mem_iff.mpr (minL_mem l' hl')))
+      (minL_le l' _ (h.mem_iff.mp (minL_mem l hl)))
+
+/-! ### the harmonic family  T c = Σ f/(M + c),  H γ = 1/T(2γ) − 2γ -/
+
+/-- `Σ fᵢ · 1/(Mᵢ + c)` -/
+def T (c : α) (ps : List (α × α)) : α := S (fun p => p.1 * (1 / (p.2 + c))) ps
+
+/-- `H γ = 1/Σ fᵢ/(Mᵢ+2γ) − 2γ`: the Hashin–Shtrikman value with reference mobility γ -/
+def H (γ : α) (ps : List (α × α)) : α := 1 / T (2 * γ) ps - 2 * γ
+
+/-- the hypotheses of the property: defined (positive) mobilities, fractions on the simplex -/
+structure Valid (ps : List (α × α)) : Prop where
+  mob_pos : ∀ p ∈ ps, 0 < p.2
+  fr_nonneg : ∀ p ∈ ps, 0 ≤ p.1
+  fr_sum : S Prod.fst ps = 1
+
+theorem Valid.ne_nil {ps : List (α × α)} (h : Valid ps) : ps ≠ [] := by
+  intro e; have := h.fr_sum; rw [e] at this; simp at this
+
+theorem T_pos {ps : List (α × α)} (h : Valid ps) (c : α) (hc : 0 ≤ c) : 0 < T c ps := by
+  apply S_weighted_pos ps (fun p => 1 / (p.2 + c)) h.fr_nonneg
+  · intro p hp; have := h.mob_pos p hp; positivity
+  · rw [h.fr_sum]; exact one_pos
+
+/-- **tangent-line inequality** for the concave map `u ↦ u/(1+du)` at `u = 1/a`, tangent at `s` -/
+theorem tangent (a s d : α) (ha : 0 < a) (hs : 0 < s) (hd : 0 ≤ d) :
+    1 / (a + d) ≤ s / (1 + d * s) + (1 / a - s) / (1 + d * s) ^ 2 := by
+  have h1 : 0 < 1 + d * s := by positivity
+  have h2 : 0 < a + d := by positivity
+  have key : s / (1 + d * s) + (1 / a - s) / (1 + d * s) ^ 2 - 1 / (a + d)
+      = d * (s * a - 1) ^ 2 / (a * (a + d) * (1 + d * s) ^ 2) := by
+    field_simp; ring
+  have : 0 ≤ d * (s * a - 1) ^ 2 / (a * (a + d) * (1 + d * s) ^ 2) := by positivity
+  linarith
+
+/-- summed with the weights: `Σ f/(a+d) ≤ s/(1+ds)` with `s = Σ f/a`, i.e.
+`1/Σ f/(a+d) ≥ 1/Σ f/a + d` -/
+theorem T_shift {ps : List (α × α)} (h : Valid ps) (c d : α) (hc : 0 ≤ c) (hd : 0 ≤ d) :
+    T (c + d) ps ≤ T c ps / (1 + d * T c ps) := by
+  have hs := T_pos h c hc
+  set s := T c ps with hsdef
+  have h1 : 0 < 1 + d * s := by positivity
+  have := S_weighted_le ps (fun p => 1 / (p.2 + (c + d))) (fun p => 1 / (p.2 + c))
+    (s / (1 + d * s) - s / (1 + d * s) ^ 2) (1 / (1 + d * s) ^ 2) h.fr_nonneg (by
+      intro p hp
+      have hp2 := h.mob_pos p hp
+      have t := tangent (p.2 + c) s d (by positivity) hs hd
+      have e : s / (1 + d * s) - s / (1 + d * s) ^ 2 + 1 / (1 + d * s) ^ 2 * (1 / (p.2 + c))
+          = s / (1 + d * s) + (1 / (p.2 + c) - s) / (1 + d * s) ^ 2 := by ring
+      have e3 : p.2 + (c + d) = p.2 + c + d := by ring
+      rw [e, e3]; exact t)
+  rw [h.fr_sum] at this
+  have e2 : (s / (1 + d * s) - s / (1 + d * s) ^ 2) * 1 + 1 / (1 + d * s) ^ 2 * s = s / (1 + d * s) := by
+    ring
+  have hT : T (c + d) ps = S (fun p => p.1 * (1 / (p.2 + (c + d)))) ps := rfl
+  have hT' : S (fun p => p.1 * (1 / (p.2 + c))) ps = s := rfl
+  rw [hT]; rw [hT'] at this; linarith
+
+theorem inv_T_shift {ps : List (α × α)} (h : Valid ps) (c d : α) (hc : 0 ≤ c) (hd : 0 ≤ d) :
+    1 / T c ps + d ≤ 1 / T (c + d) ps := by
+  have hs := T_pos h c hc
+  have hs' := T_pos h (c + d) (by positivity)
+  have h1 : 0 < 1 + d * T c ps := by positivity
+  have := one_div_le_one_div_of_le hs' (T_shift h c d hc hd)
+  have e : 1 / (T c ps / (1 + d * T c ps)) = 1 / T c ps + d := by field_simp
+  rw [e] at this; exact this
+
+/-- **H is non-decreasing in the reference mobility** -/
+theorem H_mono {ps : List (α × α)} (h : Valid ps) (γ₁ γ₂ : α) (h1 : 0 ≤ γ₁) (h12 : γ₁ ≤ γ₂) :
+    H γ₁ ps ≤ H γ₂ ps := by
+  unfold H
+  have := inv_T_shift h (2 * γ₁) (2 * (γ₂ - γ₁)) (by positivity) (by linarith)
+  have e : 2 * γ₁ + 2 * (γ₂ - γ₁) = 2 * γ₂ := by ring
+  rw [e] at this; linarith
+
+/-- weighted arithmetic mean `Σ f M` -/
+theorem wienerUpper_eq (ps : List (α × α)) : wienerUpper ps = S (fun p => p.1 * p.2) ps := by
+  unfold wienerUpper; exact sumMap_eq _ _
+
+theorem wienerLower_eq (ps : List (α × α)) : wienerLower ps = 1 / T 0 ps := by
+  unfold wienerLower T; rw [sumMap_eq]; simp
+
+theorem wienerUpper_pos {ps : List (α × α)} (h : Valid ps) : 0 < wienerUpper ps := by
+  rw [wienerUpper_eq]
+  exact S_weighted_pos ps Prod.snd h.fr_nonneg h.mob_pos (by rw [h.fr_sum]; exact one_pos)
+
+/-- harmonic ≤ arithmetic, shifted: `1/Σ f/(M+c) ≤ Σ f M + c` -/
+theorem inv_T_le {ps : List (α × α)} (h : Valid ps) (c : α) (hc : 0 ≤ c) :
+    1 / T c ps ≤ wienerUpper ps + c := by
+  have hA := wienerUpper_pos h
+  set A := wienerUpper ps + c with hAdef
+  have hApos : 0 < A := by positivity
+  have hsum : S (fun p => p.1 * (p.2 + c)) ps = A := by
+    have : S (fun p => p.1 * (p.2 + c)) ps = S (fun p => p.1 * p.2 + c * p.1) ps :=
+      S_congr _ _ _ (fun p _ => by ring)
+    rw [this, S_add, S_mul_left, h.fr_sum, ← wienerUpper_eq]; ring
+  have := S_weighted_ge ps (fun p => 1 / (p.2 + c)) (fun p => p.2 + c) (2 / A) (-(1 / A ^ 2))
+    h.fr_nonneg (by
+      intro p hp
+      have hp2 := h.mob_pos p hp
+      have ha : 0 < p.2 + c := by positivity
+      have key : 1 / (p.2 + c) - (2 / A + -(1 / A ^ 2) * (p.2 + c))
+          = (A - (p.2 + c)) ^ 2 / ((p.2 + c) * A ^ 2) := by field_simp; ring
+      have : 0 ≤ (A - (p.2 + c)) ^ 2 / ((p.2 + c) * A ^ 2) := by positivity
+      linarith)
+  rw [h.fr_sum, hsum] at this
+  have e : 2 / A * 1 + -(1 / A ^ 2) * A = 1 / A := by field_simp; ring
+  rw [e] at this
+  have hTe : S (fun p => p.1 * (1 / (p.2 + c))) ps = T c ps := rfl
+  rw [hTe] at this
+  have hT := T_pos h c hc
+  have := one_div_le_one_div_of_le (by positivity) this
+  simpa using this
+
+theorem H_le_wienerUpper {ps : List (α × α)} (h : Valid ps) (γ : α) (hγ : 0 ≤ γ) :
+    H γ ps ≤ wienerUpper ps := by
+  unfold H
+  have := inv_T_le h (2 * γ) (by positivity)
+  linarith
+
+theorem H_zero (ps : List (α × α)) : H 0 ps = wienerLower ps := by
+  rw [wienerLower_eq]; unfold H; simp
+
+/-- **the code's `Ak` form is H**: `γ + Ak/(1 − Ak/(3γ))` with
+`Ak = Σ f (M−γ)(3γ)/(2γ+M)` equals `1/Σ f/(M+2γ) − 2γ` -/
+theorem hsGeneral_eq_H {ps : List (α × α)} (h : Valid ps) (γ : α) (hγ : 0 < γ) :
+    hsGeneral ps γ = H γ ps := by
+  have hT := T_pos h (2 * γ) (by positivity)
+  have hak : sumMap (hsTerm γ) ps = 3 * γ * (1 - 3 * γ * T (2 * γ) ps) := by
+    rw [sumMap_eq]
+    have : S (hsTerm γ) ps
+        = S (fun p => (3 * γ) * p.1 + (-(3 * γ * (3 * γ))) * (p.1 * (1 / (p.2 + 2 * γ)))) ps := by
+      apply S_congr; intro p hp
+      have hp2 := h.mob_pos p hp
+      have : 0 < 2 * γ + p.2 := by positivity
+      have : 0 < p.2 + 2 * γ := by positivity
+      unfold hsTerm; field_simp; ring
+    rw [this, S_add, S_mul_left, S_mul_left, h.fr_sum]
+    unfold T; ring
+  unfold hsGeneral H
+  simp only [hak]
+  generalize T (2 * γ) ps = t at hT
+  have hT' := hT.ne'
+  have hγ' := hγ.ne'
+  have e1 : 1 - 3 * γ * (1 - 3 * γ * t) / (3 * γ) = 3 * γ * t := by
+    field_simp; ring
+  rw [e1]; field_simp; ring
+
+
+/-! ### ordering and bounds of the four bound rules -/
+
+theorem snd_mem {ps : List (α × α)} {p : α × α} (hp : p ∈ ps) : p.2 ∈ ps.map Prod.snd :=
+  List.mem_map.mpr ⟨p, hp, rfl⟩
+
+theorem snd_ne_nil {ps : List (α × α)} (h : Valid ps) : ps.map Prod.snd ≠ [] := by
+  intro e; exact h.ne_nil (List.map_eq_nil_iff.mp e)
+
+theorem minL_pos {ps : List (α × α)} (h : Valid ps) : 0 < minL (ps.map Prod.snd) := by
+  obtain ⟨p, hp, e⟩ := List.mem_map.mp (minL_mem _ (snd_ne_nil h))
+  rw [← e]; exact h.mob_pos p hp
+
+theorem minL_le_maxL {ps : List (α × α)} (h : Valid ps) :
+    minL (ps.map Prod.snd) ≤ maxL (ps.map Prod.snd) :=
+  minL_le _ _ (maxL_mem _ (snd_ne_nil h))
+
+/-- the code's lower / upper Hashin–Shtrikman functions are H at the smallest / largest mobility -/
+theorem hsLower_eq {ps : List (α × α)} (h : Valid ps) : hsLower ps = H (minL (ps.map Prod.snd)) ps :=
+  hsGeneral_eq_H h _ (minL_pos h)
+
+theorem hsUpper_eq {ps : List (α × α)} (h : Valid ps) : hsUpper ps = H (maxL (ps.map Prod.snd)) ps :=
+  hsGeneral_eq_H h _ (lt_of_lt_of_le (minL_pos h) (minL_le_maxL h))
+
+/-- **lower Wiener ≤ lower Hashin–Shtrikman** -/
+theorem wienerLower_le_hsLower {ps : List (α × α)} (h : Valid ps) : wienerLower ps ≤ hsLower ps := by
+  rw [hsLower_eq h, ← H_zero]; exact H_mono h 0 _ (le_refl _) (minL_pos h).le
+
+/-- **lower Hashin–Shtrikman ≤ upper Hashin–Shtrikman** -/
+theorem hsLower_le_hsUpper {ps : List (α × α)} (h : Valid ps) : hsLower ps ≤ hsUpper ps := by
+  rw [hsLower_eq h, hsUpper_eq h]; exact H_mono h _ _ (minL_pos h).le (minL_le_maxL h)
+
+/-- **upper Hashin–Shtrikman ≤ upper Wiener** -/
+theorem hsUpper_le_wienerUpper {ps : List (α × α)} (h : Valid ps) : hsUpper ps ≤ wienerUpper ps := by
+  rw [hsUpper_eq h]; exact H_le_wienerUpper h _ ((minL_pos h).le.trans (minL_le_maxL h))
+
+/-- **upper Wiener ≤ largest phase mobility** -/
+theorem wienerUpper_le_max {ps : List (α × α)} (h : Valid ps) :
+    wienerUpper ps ≤ maxL (ps.map Prod.snd) := by
+  rw [wienerUpper_eq]
+  have := S_mono (fun p => p.1 * p.2) (fun p => maxL (ps.map Prod.snd) * p.1) ps (by
+    intro p hp
+    have := mul_le_mul_of_nonneg_left (le_maxL _ _ (snd_mem hp)) (h.fr_nonneg p hp)
+    linarith [mul_comm p.1 (maxL (ps.map Prod.snd))])
+  rw [S_mul_left, h.fr_sum] at this; linarith
+
+/-- **smallest phase mobility ≤ lower Wiener** -/
+theorem min_le_wienerLower {ps : List (α × α)} (h : Valid ps) :
+    minL (ps.map Prod.snd) ≤ wienerLower ps := by
+  rw [wienerLower_eq]
+  have hm := minL_pos h
+  have hT := T_pos h 0 (le_refl _)
+  have : T 0 ps ≤ 1 / minL (ps.map Prod.snd) := by
+    have := S_mono (fun p => p.1 * (1 / (p.2 + 0))) (fun p => (1 / minL (ps.map Prod.snd)) * p.1) ps (by
+      intro p hp
+      have hp2 := h.mob_pos p hp
+      have hle := minL_le _ _ (snd_mem hp)
+      have : 1 / (p.2 + 0) ≤ 1 / minL (ps.map Prod.snd) := by
+        rw [add_zero]; exact one_div_le_one_div_of_le hm hle
+      have := mul_le_mul_of_nonneg_left this (h.fr_nonneg p hp)
+      linarith [mul_comm p.1 (1 / minL (ps.map Prod.snd))])
+    rw [S_mul_left, h.fr_sum] at this
+    unfold T; linarith
+  have := one_div_le_one_div_of_le hT this
+  simpa using this
+
+/-- **the whole chain** for the public functions (`applyRule` = substitute undefined entries, then
+average): with defined mobilities the substitution does nothing and
+`min M ≤ W_lower ≤ HS_lower ≤ HS_upper ≤ W_upper ≤ max M`. -/
+theorem subst_of_pos (sub m : α) (hm : 0 < m) : subst sub m = m := by
+  unfold subst isDefined
+  have : (-1 : α) < m := by linarith
+  simp [this]
+
+theorem prep_of_valid {ps : List (α × α)} (h : Valid ps) (sub : α) : prep sub ps = ps := by
+  unfold prep
+  conv_rhs => rw [← List.map_id ps]
+  apply List.map_congr_left
+  intro p hp
+  simp [subst_of_pos sub p.2 (h.mob_pos p hp)]
+
+theorem ordering (pw : α → α → α) (tiny big n : α) {ps : List (α × α)} (h : Valid ps) :
+    minL (ps.map Prod.snd) ≤ applyRule pw tiny big n .wienerLower ps ∧
+    applyRule pw tiny big n .wienerLower ps ≤ applyRule pw tiny big n .hashinLower ps ∧
+    applyRule pw tiny big n .hashinLower ps ≤ applyRule pw tiny big n .hashinUpper ps ∧
+    applyRule pw tiny big n .hashinUpper ps ≤ applyRule pw tiny big n .wienerUpper ps ∧
+    applyRule pw tiny big n .wienerUpper ps ≤ maxL (ps.map Prod.snd) := by
+  simp only [applyRule, prep_of_valid h]
+  exact ⟨min_le_wienerLower h, wienerLower_le_hsLower h, hsLower_le_hsUpper h,
+    hsUpper_le_wienerUpper h, wienerUpper_le_max h⟩
+
+/-- every one of the four bound rules lies between the smallest and the largest phase mobility -/
+theorem bounds (pw : α → α → α) (tiny big n : α) {ps : List (α × α)} (h : Valid ps) (r : Rule)
+    (hr : r ≠ .labyrinth) :
+    minL (ps.map Prod.snd) ≤ applyRule pw tiny big n r ps ∧
+    applyRule pw tiny big n r ps ≤ maxL (ps.map Prod.snd) := by
+  obtain ⟨h1, h2, h3, h4, h5⟩ := ordering pw tiny big n h
+  cases r with
+  | wienerUpper => exact ⟨h1.trans (h2.trans (h3.trans h4)), h5⟩
+  | wienerLower => exact ⟨h1, h2.trans (h3.trans (h4.trans h5))⟩
+  | hashinUpper => exact ⟨h1.trans (h2.trans h3), h4.trans h5⟩
+  | hashinLower => exact ⟨h1.trans h2, h3.trans (h4.trans h5)⟩
+  | labyrinth => exact absurd rfl hr
+
+/-- undefined entries: after the substitution of any positive value for `-1` the list is again a
+valid one, so the two lower rules stay ordered among themselves, and the two upper rules too
+(each pair uses its own substitute) -/
+theorem prep_valid (sub : α) (hsub : 0 < sub) (ps : List (α × α))
+    (hm : ∀ p ∈ ps, 0 < p.2 ∨ p.2 = -1) (hf : ∀ p ∈ ps, 0 ≤ p.1) (hs : S Prod.fst ps = 1) :
+    Valid (prep sub ps) := by
+  refine ⟨?_, ?_, ?_⟩
+  · intro q hq
+    obtain ⟨p, hp, rfl⟩ := List.mem_map.mp hq
+    rcases hm p hp with h | h
+    · simp only; rw [subst_of_pos _ _ h]; exact h
+    · simp only [subst, isDefined, h]; simpa using hsub
+  · intro q hq
+    obtain ⟨p, hp, rfl⟩ := List.mem_map.mp hq
+    exact hf p hp
+  · have : S Prod.fst (prep sub ps) = S Prod.fst ps := by
+      unfold prep S; simp [List.map_map, Function.comp_def]
+    rw [this, hs]
+
+theorem ordering_with_undefined (pw : α → α → α) (tiny big n : α) (ht : 0 < tiny) (hb : 0 < big)
+    (ps : List (α × α)) (hm : ∀ p ∈ ps, 0 < p.2 ∨ p.2 = -1) (hf : ∀ p ∈ ps, 0 ≤ p.1)
+    (hs : S Prod.fst ps = 1) :
+    applyRule pw tiny big n .wienerLower ps ≤ applyRule pw tiny big n .hashinLower ps ∧
+    applyRule pw tiny big n .hashinUpper ps ≤ applyRule pw tiny big n .wienerUpper ps := by
+  simp only [applyRule]
+  exact ⟨wienerLower_le_hsLower (prep_valid big hb ps hm hf hs),
+    hsUpper_le_wienerUpper (prep_valid tiny ht ps hm hf hs)⟩
+
+/-! ### independence of the order in which the phases are listed -/
+
+theorem sumMap_perm (g : α × α → α) (ps ps' : List (α × α)) (h : ps.Perm ps') :
+    sumMap g ps = sumMap g ps' := by
+  rw [sumMap_eq, sumMap_eq]; exact S_perm g _ _ h
+
+theorem hsGeneral_perm (ps ps' : List (α × α)) (h : ps.Perm ps') (ext : α) :
+    hsGeneral ps ext = hsGeneral ps' ext := by
+  unfold hsGeneral; rw [sumMap_perm _ _ _ h]
+
+/-- **permutation invariance**: every rule (labyrinth included) returns the same value for any
+reordering of the phase rows -/
+theorem applyRule_perm (pw : α → α → α) (tiny big n : α) (r : Rule) (ps ps' : List (α × α))
+    (h : ps.Perm ps') : applyRule pw tiny big n r ps = applyRule pw tiny big n r ps' := by
+  have hp : ∀ sub, (prep sub ps).Perm (prep sub ps') := fun sub => h.map _
+  cases r with
+  | wienerUpper => exact sumMap_perm _ _ _ (hp tiny)
+  | wienerLower => simp only [applyRule, wienerLower]; rw [sumMap_perm _ _ _ (hp big)]
+  | hashinUpper =>
+    simp only [applyRule, hsUpper]
+    rw [maxL_perm _ _ ((hp tiny).map Prod.snd), hsGeneral_perm _ _ (hp tiny)]
+  | hashinLower =>
+    simp only [applyRule, hsLower]
+    rw [minL_perm _ _ ((hp big).map Prod.snd), hsGeneral_perm _ _ (hp big)]
+  | labyrinth => exact sumMap_perm _ _ _ (hp tiny)
+
+/-! ### a single phase -/
+
+/-- **single phase**: with one phase present (fraction 1) every rule returns that phase's mobility
+(the labyrinth rule for every factor, given `1ⁿ = 1`) -/
+theorem single_phase (pw : α → α → α) (tiny big n M : α) (hM : 0 < M) (hpw : pw 1 n = 1) (r : Rule) :
+    applyRule pw tiny big n r [(1, M)] = M := by
+  have hM' := hM.ne'
+  have hs : ∀ sub, prep sub [((1:α), M)] = [(1, M)] := by
+    intro sub; simp [prep, subst_of_pos sub M hM]
+  cases r with
+  | wienerUpper => simp [applyRule, hs, wienerUpper, sumMap]
+  | wienerLower => simp [applyRule, hs, wienerLower, sumMap]
+  | hashinUpper => simp [applyRule, hs, hsUpper, hsGeneral, maxL, sumMap, hsTerm]
+  | hashinLower => simp [applyRule, hs, hsLower, hsGeneral, minL, sumMap, hsTerm]
+  | labyrinth => simp [applyRule, hs, labyrinth, sumMap, hpw]
+
+/-! ### labyrinth rule -/
+
+/-- factor 1 (`x¹ = x`) is the upper Wiener rule -/
+theorem labyrinth_one (pw : α → α → α) (hpw : ∀ x, pw x 1 = x) (ps : List (α × α)) :
+    labyrinth pw 1 ps = wienerUpper ps := by
+  unfold labyrinth wienerUpper; simp [hpw]
+
+/-- whenever `xⁿ ≤ x` on `[0,1]` (true for every factor `n ≥ 1`, see the ℝ instance below) the
+labyrinth rule does not exceed the upper Wiener rule -/
+theorem labyrinth_le_wienerUpper (pw : α → α → α) (n : α)
+    (hpw : ∀ x, 0 ≤ x → x ≤ 1 → pw x n ≤ x) (ps : List (α × α))
+    (hM : ∀ p ∈ ps, 0 ≤ p.2) (hf : ∀ p ∈ ps, 0 ≤ p.1) (hs : S Prod.fst ps = 1) :
+    labyrinth pw n ps ≤ wienerUpper ps := by
+  unfold labyrinth wienerUpper
+  rw [sumMap_eq, sumMap_eq]
+  apply S_mono; intro p hp
+  have h1 : p.1 ≤ 1 := by rw [← hs]; exact le_S_of_mem Prod.fst ps hf p hp
+  exact mul_le_mul_of_nonneg_right (hpw p.1 (hf p hp) h1) (hM p hp)
+
+/-- `setLabyrinthFactor` stores a factor in [1, 2] whatever was requested -/
+theorem clipFactor_range (n : α) : 1 ≤ clipFactor n ∧ clipFactor n ≤ 2 := by
+  unfold clipFactor
+  split
+  · exact ⟨le_refl _, by norm_num⟩
+  · split
+    · exact ⟨by norm_num, le_refl _⟩
+    · exact ⟨not_lt.mp ‹_›, not_lt.mp ‹_›⟩
+
+
 end KawinV.Props.C17
